@@ -134,6 +134,24 @@ def gen_history(rng):
               'member': rng.choice(['pa', 'pb', 'pc']),
               'status': rng.choice(['accepted', 'rejected'])}
         ops.append(op)
+    if rng.random() < 0.5:
+        # scripted sharing sequence: a private workflow is shared with one
+        # project, which accepts or rejects; then every project reads by id
+        # and lists (a third project must never see it)
+        owner = rng.choice(['pa', 'pb', 'pc'])
+        member = rng.choice([x for x in ('pa', 'pb', 'pc') if x != owner])
+        base = {'rtype': 'wf', 'name': 'n1', 'scope': 'private',
+                'target': 0, 'member': member,
+                'status': rng.choice(['accepted', 'accepted', 'rejected']),
+                'ref': 'last_private_wf'}
+        seq = [dict(base, op='create', actor=owner, ref=None),
+               dict(base, op='share', actor=owner),
+               dict(base, op='member_update', actor=member)]
+        for a in ('pa', 'pb', 'pc'):
+            seq.append(dict(base, op='get_by_id', actor=a))
+            seq.append(dict(base, op='list', actor=a))
+        at = rng.randint(0, len(ops))
+        ops[at:at] = seq
     return ops
 
 
@@ -268,6 +286,10 @@ class Runner15(runner.Runner):
                 x['alive'] = False
 
     def _pick(self, model, op, only_alive=True):
+        if op.get('ref') == 'last_private_wf':
+            cands = [r for r in model.res if r['rtype'] == 'wf' and
+                     r['alive'] and r['scope'] == 'private']
+            return cands[-1] if cands else None
         cands = [r for r in model.res if r['rtype'] == op['rtype'] and
                  (r['alive'] or not only_alive)]
         if not cands:
